@@ -102,7 +102,9 @@ func c02Profile(variant string) func(c *sim.RunCtx) {
 			// half of the CAS runs are wired by new_blob_access.go itself
 			pp.cfg.WConfig = true
 			if !pp.cfg.Hier {
-				pp.cfg.KeyFormat = 0
+				if !pp.cfg.AC {
+					pp.cfg.KeyFormat = 0
+				}
 			}
 		}
 		c.Sample["config"] = pp.cfg.String()
